@@ -2,6 +2,7 @@ package psim
 
 import (
 	"fmt"
+	"net/url"
 	"os"
 	"strings"
 )
@@ -209,6 +210,42 @@ func dataflowCase(c *Ctx, focus string) {
 				c.Res.Probes["preflight-instances"]++
 			}
 		}
+		if AdvOn {
+			// reach of the adversarial key sets: map calls over typed maps whose
+			// key set holds a key ending in "_"+another key, or a key next to its
+			// percent-encoded form
+			keysOf := map[string]map[string]bool{}
+			for _, in := range ev.Insts {
+				if in.MapKind == 'm' {
+					if keysOf[in.Node] == nil {
+						keysOf[in.Node] = map[string]bool{}
+					}
+					keysOf[in.Node][in.MapKey] = true
+				}
+			}
+			for _, ks := range keysOf {
+				if len(ks) >= 2 {
+					c.Res.Probes["typed-map-calls-with-two-or-more-forks"]++
+				}
+				suffix, enc := false, false
+				for a := range ks {
+					for b := range ks {
+						if a != b && strings.HasSuffix(a, "_"+b) {
+							suffix = true
+						}
+						if a != b && url.PathEscape(b) == a {
+							enc = true
+						}
+					}
+				}
+				if suffix {
+					c.Res.Probes["typed-map-calls-with-a-key-ending-in-underscore-other-key"]++
+				}
+				if enc {
+					c.Res.Probes["typed-map-calls-with-a-key-and-its-encoding"]++
+				}
+			}
+		}
 		c.Res.Nontrivial = len(r.Jobs) >= 3
 	case "rejected-at-start":
 		c.Res.Notes = append(c.Res.Notes, "mrp rejected the program: "+lastLines(r.outBuf.String(), 6))
@@ -258,8 +295,19 @@ var AdvKeys = []string{"a.b", "a/b", "%", "%2E", "%2F", "a%2Eb", "fork0", "fork_
 	"complete", "split_complete", "a.complete", "chr1:100-200", "k=v&w", "x+y@z", "p;q,r", "(x)!*'", "very_long_key_abcdefghijklmnopqrstuvwxyz_0123456789_abcdefghijklmnopqrstuvwxyz"}
 
 func c11Case(c *Ctx) {
-	if c.Plan.Draw(10) == 0 {
+	sel := c.Plan.Draw(10)
+	switch os.Getenv("VERIF_C11") { // experiments: force one sub-profile
+	case "stale":
+		sel = 0
+	case "stall":
+		sel = 1
+	}
+	switch sel {
+	case 0:
 		c11Stale(c)
+		return
+	case 1:
+		c11Stall(c)
 		return
 	}
 	AdvOn = true
